@@ -467,6 +467,24 @@ Proof.
 Qed.
 
 (* ------------------------------------------------------------------ chain-wise lists read off a walk *)
+Lemma walk_chain_inv h x c rs :
+  walk_chain h x = Some (c, rs) -> get_c h x = Some c /\ mapM (walk_res h) (c_res c) = Some rs.
+Proof.
+  unfold walk_chain. intros H. inv_bind H. inv_bind H. inversion H; subst. split; assumption.
+Qed.
+
+Lemma res_atoms_of_walk h rls rs :
+  mapM (walk_res h) rls = Some rs ->
+  concat (map (fun r => match get_r h r with Some rr => r_atoms rr | None => [] end) rls) =
+  map fst (concat (map snd rs)).
+Proof.
+  revert rs; induction rls as [|r l IHl]; intros rs E0.
+  - inversion E0; reflexivity.
+  - apply mapM_cons_some in E0. destruct E0 as [[rr A] [br [Hb [Hl ->]]]].
+    apply walk_res_inv in Hb. destruct Hb as [G [Hat _]].
+    simpl. rewrite G, Hat, map_app. f_equal. apply IHl. exact Hl.
+Qed.
+
 Lemma chainwise_of_walk h cs w :
   mapM (walk_chain h) cs = Some w ->
   chainwise_residues h cs = concat (map (fun cw => c_res (fst cw)) w) /\
@@ -474,18 +492,13 @@ Lemma chainwise_of_walk h cs w :
 Proof.
   revert w; induction cs as [|c cs IH]; intros w H.
   - inversion H; subst. split; reflexivity.
-  - apply mapM_cons_some in H. destruct H as [cw [wr [Hc [Hl ->]]]].
+  - apply mapM_cons_some in H. destruct H as [[ch rs] [wr [Hc [Hl ->]]]].
     destruct (IH _ Hl) as [IH1 IH2].
-    unfold walk_chain in Hc. inv_bind Hc. inv_bind Hc. inversion Hc; subst cw; clear Hc.
-    unfold chainwise_atoms, chainwise_residues in *. simpl. rewrite E. simpl.
+    apply walk_chain_inv in Hc. destruct Hc as [G Hrs].
+    unfold chainwise_atoms, chainwise_residues in *. simpl. rewrite G. simpl.
     split; [f_equal; exact IH1|].
     rewrite map_app, concat_app. unfold walk_atoms. simpl. rewrite map_app.
-    f_equal; [|exact IH2].
-    clear - E0. revert x1 E0. generalize (c_res x0). induction l as [|r l IHl]; intros x1 E0.
-    + inversion E0; reflexivity.
-    + apply mapM_cons_some in E0. destruct E0 as [[rr A] [br [Hb [Hl ->]]]].
-      apply walk_res_inv in Hb. destruct Hb as [G [Hat _]].
-      simpl. rewrite G, Hat, map_app. f_equal. apply IHl. exact Hl.
+    f_equal; [|exact IH2]. apply res_atoms_of_walk. exact Hrs.
 Qed.
 
 Lemma walk_of_layout h L :
@@ -590,3 +603,63 @@ Section CopyFix.
     exact Hbe.
   Qed.
 End CopyFix.
+
+(* everything a well-formed topology reaches is an allocated object *)
+Lemma walk_chain_locs_lt h cs w :
+  hwf h -> mapM (walk_chain h) cs = Some w ->
+  (forall l, In l cs -> l < h_next h) /\
+  (forall l, In l (concat (map (fun cw => c_res (fst cw)) w)) -> l < h_next h) /\
+  (forall l, In l (map fst (walk_atoms w)) -> l < h_next h).
+Proof.
+  intros Hw. revert w; induction cs as [|c cs IH]; intros w H.
+  - inversion H; subst. repeat split; intros l [].
+  - apply mapM_cons_some in H. destruct H as [[ch rs] [wr [Hc [Hl ->]]]].
+    destruct (IH _ Hl) as [I1 [I2 I3]]. pose proof Hc as Hc0.
+    apply walk_chain_inv in Hc. destruct Hc as [G Hrs].
+    split; [|split].
+    + intros l [<-|Hin]; [eapply hwf_lt_c; eauto | auto].
+    + intros l Hin. simpl in Hin. apply in_app_or in Hin. destruct Hin as [Hin|Hin]; [|auto].
+      destruct (mapM_in _ _ _ _ Hrs Hin) as [[rr A] [Hwr _]]. apply walk_res_inv in Hwr.
+      destruct Hwr as [Gr _]. eapply hwf_lt_r; eauto.
+    + intros l Hin. unfold walk_atoms in Hin. simpl in Hin. rewrite map_app in Hin.
+      apply in_app_or in Hin. destruct Hin as [Hin|Hin]; [|apply I3; exact Hin].
+      apply in_map_iff in Hin. destruct Hin as [[l' a] [Heq Hin]]. simpl in Heq; subst l'.
+      eapply hwf_lt_a; [exact Hw|]. eapply walk_chain_atoms; [exact Hc0 | exact Hin].
+Qed.
+
+Lemma wfo_reach_lt h t : wfo h t -> forall l, In l (reach h t) -> l < h_next h.
+Proof.
+  intros [Hw [w [Hwalk [Hn [Hnd [Hat [Hre [_ [_ Hb]]]]]]]]].
+  destruct (walk_chain_locs_lt h _ w Hw Hwalk) as [L1 [L2 L3]].
+  destruct (chainwise_of_walk _ _ _ Hwalk) as [CR CA].
+  intros l Hin. unfold reach in Hin. rewrite Hat, Hre, CR, CA in Hin.
+  repeat (apply in_app_or in Hin; destruct Hin as [Hin|Hin]); auto.
+  unfold bond_ends in Hin. apply in_concat in Hin. destruct Hin as [ends [He Hin]].
+  apply in_map_iff in He. destruct He as [b [<- Hbin]].
+  destruct (Hb b Hbin) as [E1 [E2 _]]. destruct Hin as [<-|[<-|[]]]; auto.
+Qed.
+
+(* a copy is independent: it shares no reachable object with the source, nor with any other
+   topology u that was well formed before the copy *)
+Theorem copy_independent h t h' t' u :
+  wfo h t -> wfo h u -> copy flags_fix h t = Some (h', t') ->
+  forall l, In l (reach h' t') -> ~ In l (reach h' u).
+Proof.
+  intros Ht Hu Hc l Hin Hin'.
+  pose proof (copy_fresh h t h' t' Ht Hc l Hin) as Hge.
+  destruct (copy_wfo h t h' t' Ht Hc) as [_ Ht'].
+  pose proof (copy_frame h t h' t' Ht Hc) as Hag.
+  destruct Ht as [Hw _].
+  assert (Hu' : wfo h' u) by (apply (wfo_agree h h' u Hu); [apply (copy_wfo h t h' t'); auto; split; auto | exact Hag]).
+  (* reach of u is the same list in h' as in h, hence below the old allocation pointer *)
+  destruct Hu as [Hwu [w [Hwalk [Hn [Hnd [Hat [Hre [_ [_ Hb]]]]]]]]].
+  assert (Hwalk' : walk h' u = Some w) by (eapply walk_agree; eauto).
+  destruct (walk_chain_locs_lt h _ w Hwu Hwalk) as [L1 [L2 L3]].
+  destruct (chainwise_of_walk _ _ _ Hwalk') as [CR CA].
+  unfold reach in Hin'. rewrite Hat, Hre, CR, CA in Hin'.
+  assert (l < h_next h); [|lia].
+  repeat (apply in_app_or in Hin'; destruct Hin' as [Hin'|Hin']); auto.
+  unfold bond_ends in Hin'. apply in_concat in Hin'. destruct Hin' as [ends [He Hin']].
+  apply in_map_iff in He. destruct He as [b [<- Hbin]].
+  destruct (Hb b Hbin) as [E1 [E2 _]]. destruct Hin' as [<-|[<-|[]]]; auto.
+Qed.
